@@ -130,13 +130,24 @@ impl<'a> Checker<'a> {
             }
         }
         let mut prev_hash: Option<String> = None;
-        for n in 0..=(h.max(-1)) {
-            if n < 0 {
-                break;
+        // long stretches of mined (empty) blocks - chains initialised at a large height, or a gap of
+        // 2^16 blocks - are sampled: their ends, and the blocks around multiples of 256 and 65 536
+        let mined: Vec<bool> = d.chain.iter().map(|ops| ops.len() == 1 && matches!(ops[0], Op::Mine { .. })).collect();
+        let mut n: i64 = 0;
+        while n <= h {
+            let i = n as usize;
+            let in_run = mined.get(i).copied().unwrap_or(false)
+                && (1..=3).all(|k| mined.get(i.wrapping_sub(k)).copied().unwrap_or(false) && mined.get(i + k).copied().unwrap_or(false));
+            let boundary = (n % 256 <= 1 || n % 256 == 255) && (n % 65_536 <= 1 || n % 65_536 >= 65_534 || n % 8192 <= 1);
+            if in_run && !boundary {
+                prev_hash = None;
+                n += 1;
+                continue;
             }
             if !self.check_block(d, n as u64, &mut prev_hash) {
                 return false;
             }
+            n += 1;
         }
         true
     }
@@ -156,7 +167,12 @@ impl<'a> Checker<'a> {
         }
         let hash = s(&blk, "hash").to_string();
         let parent = s(&blk, "parentHash").to_string();
-        let want_parent = prev_hash.clone().unwrap_or_else(|| hist::ZERO_HASH.to_string());
+        // (after a skipped stretch of mined blocks the predecessor is fetched)
+        let want_parent = match (&prev_hash, n) {
+            (Some(p), _) => p.clone(),
+            (None, 0) => hist::ZERO_HASH.to_string(),
+            (None, _) => d.inst.call("eth_getBlockByNumber", json!([format!("0x{:x}", n - 1), false])).ok().map(|b| s(b, "hash").to_string()).unwrap_or_default(),
+        };
         if parent != want_parent {
             self.fail(d, "parent-hash", format!("block {} has parentHash {} but block {} has hash {}", n, parent, n as i64 - 1, want_parent), json!({}));
             return false;
@@ -494,7 +510,7 @@ fn one_history(ctx: &WorkerCtx, rep: &mut WorkerReport, case_seed: u64, blocks: 
     let (net, _) = net_for_shard(ctx.shard);
     let mut rng = crate::rng::Rng::new(case_seed);
     let mut w = World::new(case_seed, rpc::chain_id_for(net));
-    let scale = scale_world(&mut w, case_seed, false, false);
+    let scale = scale_world(&mut w, case_seed, true, ctx.thorough());
     rep.set_add("scale_profiles", scale);
     w.profile.max_txs_per_block = 8;
     w.profile.p_empty_block = 12;
